@@ -12,7 +12,7 @@ def run(Ctx, CHECKS):
             return 2
     # python-driven engines build in their own workspaces/target dirs: warm them by one quick run each
     # (the verdicts of these warm-up runs are ignored here; the checks themselves are run afterwards)
-    for mod, prop in [("expand_c03", "C03"), ("sendsync_c09", "C09"), ("layout_c20", "C20"), ("xmod_c05", "C05"), ("bindgen_c17", "C17")]:
+    for mod, prop in [("expand_c03", "C03"), ("sendsync_c09", "C09"), ("layout_c20", "C20"), ("xmod_c05", "C05"), ("bindgen_c17", "C17"), ("castprobe_c08", "C08"), ("life_void_c06", "C06")]:
         try:
             m = __import__(mod)
             m.run(prop, "quick", None, Ctx)
